@@ -56,6 +56,8 @@ type CLI struct {
 	rng       *rand.Rand
 	line      []byte
 	EchoDelay time.Duration
+	// LineEchoDelay[n] > 0: the device is slow to start echoing the n-th line it receives
+	LineEchoDelay map[int]time.Duration
 	// DelayMax > 0: the device pauses a random time (whole microseconds) before each reply and
 	// before each prompt.
 	DelayMax time.Duration
@@ -100,7 +102,11 @@ func (d *CLI) Input(b []byte, now time.Duration) []simnet.Seg {
 			d.line = append(d.line, c)
 			if !m.NoEcho {
 				e := []byte{c}
-				segs = append(segs, simnet.Seg{B: e, Delay: d.EchoDelay})
+				delay := d.EchoDelay
+				if len(d.line) == 1 {
+					delay += d.LineEchoDelay[len(d.Log)]
+				}
+				segs = append(segs, simnet.Seg{B: e, Delay: delay})
 				if len(d.Noise) > 0 && i+1 < len(b) && b[i+1] != d.Return && d.rng.IntN(100) < d.NoisePct {
 					segs = append(segs, simnet.Seg{B: []byte(d.Noise[d.rng.IntN(len(d.Noise))])})
 				}
